@@ -78,8 +78,8 @@ def _exh_count(tier):
 
 def plan(tier):
     if tier == "quick":
-        return {"random": 3000, "closed": 720, "sequence": 500, "exhaustive": _exh_count("quick")}
-    return {"random": 240000, "closed": 57600, "sequence": 40000, "exhaustive": _exh_count("thorough")}
+        return {"random": 3000, "closed": 720, "sequence": 500, "scale": 51, "exhaustive": _exh_count("quick")}
+    return {"random": 240000, "closed": 57600, "sequence": 40000, "scale": 1020, "exhaustive": _exh_count("thorough")}
 
 
 def floors(tier):
@@ -125,7 +125,11 @@ class Oracle:
     def __init__(self, family):
         self.edges = list(family)  # list of frozensets, pairwise distinct
         self.E = set(self.edges)
-        self.maximal = [e for e in self.edges if not any(e < f for f in self.edges)]
+        bysize = {}
+        for e in self.edges:
+            bysize.setdefault(len(e), []).append(e)
+        self.nonmax = {e for e in self.edges if any(e < f for k, fs in bysize.items() if k > len(e) for f in fs)}
+        self.maximal = [e for e in self.edges if e not in self.nonmax]
 
     @staticmethod
     def subsets(e, lo, hi):
@@ -149,7 +153,7 @@ class Oracle:
         ms = len(missing)
         redundant = any(v > 1 for v in inside_count.values())
         overlapping = any(len(a & b) >= min_size for a, b in combinations(elig_max, 2))
-        nonmax = sum(1 for e in self.edges if len(e) >= min_size and any(e < f for f in self.edges))
+        nonmax = sum(1 for e in self.nonmax if len(e) >= min_size)
         p_lo = nonmax
         p_hi = nonmax + (sum(1 for e in self.maximal if len(e) == min_size) if exclude else 0)
         # simplicial fraction
@@ -203,7 +207,7 @@ def _close(a, b):
 PHASE_CLAUSE = {"same-object-after-edit": "value-stale-or-wrong", "second-call-without-edit": "differs-from-first-call"}
 
 
-def monitor_hypergraph(mon, H, how, min_sizes=MIN_SIZES, phase=None):
+def monitor_hypergraph(mon, H, how, min_sizes=MIN_SIZES, phase=None, size_tag=None):
     """All five functions x all settings on the *current* state of H.  Returns the oracle; `.fired` tells whether a monitor fired.
 
     phase (sequence kind): None for a fresh object; otherwise the trigger class of the key - the object has been queried
@@ -214,6 +218,10 @@ def monitor_hypergraph(mon, H, how, min_sizes=MIN_SIZES, phase=None):
     assert len(set(family)) == len(family) and all(family), "generator produced a repeated or empty edge"
     orc = Oracle(family)
     shown = {e: sorted(m) for e, m in members.items()}
+    if phase is None:
+        mon.note("in:no-edges" if not family else ("in:one-edge" if len(family) == 1 else "in:several-edges"))
+        if family and all(len(e) == 1 for e in family):
+            mon.note("in:only-singleton-edges")
 
     orc.fired = 0
 
@@ -222,7 +230,7 @@ def monitor_hypergraph(mon, H, how, min_sizes=MIN_SIZES, phase=None):
         if phase:
             key, what = f"{fn}|{phase}|{PHASE_CLAUSE[phase]}", f"[{phase}; {opt}: {clause}] {what}"
         else:
-            key = f"{fn}|{opt}|{clause}"
+            key = f"{fn}|{opt}{',' + size_tag if size_tag else ''}|{clause}"
         mon.fail(key, f"{fn}: {what}", f"import xgi; {how}\n# current members={shown!r}")
         return False
 
@@ -600,7 +608,124 @@ def run_sequence(mon, rng):
     mon.sample(how)
 
 
+# ---------------------------------------------------------------------------------
+# the size regime: medium (11-60 nodes, a few edges up to size 7) and large (61-600 nodes, edges of size <= 4)
+# ---------------------------------------------------------------------------------
+SCALE_SIZES = (11, 16, 24, 33, 47, 60, 85, 120, 170, 249, 250, 251, 260, 300, 380, 470, 600)  # 17 sizes: n = SCALE_SIZES[idx % 17]
+MAX_SCALE_EDGES = 400
+
+
+def build_scaled(rng, idx):
+    """A sparse hypergraph without repeated / empty edges whose size and flavour are deterministic functions of idx
+    (label kind idx % 3, explicit edge IDs (idx // 3) % 2, one 6-7 node edge for n <= 60 and idx % 2 == 0); planted in
+    every case: complete triangles (simplices), partially closed triangles, 4-edges with some faces, pairs of maximal
+    faces sharing a missing pair (redundant missing face), singletons, isolated nodes.  Returns (H, description, planted)."""
+    n = SCALE_SIZES[idx % len(SCALE_SIZES)]
+    lk = ("int", "gap", "str")[idx % 3]
+    labels = list(range(n)) if lk == "int" else (rng.sample(range(-n, 6 * n), n) if lk == "gap" else [f"v{i}" for i in range(n)])
+    rng.shuffle(labels)
+    free = labels[:]
+    fam = set()
+    planted = {"simplices": 0, "partial": 0, "four": 0, "overlap": 0, "isolated": 0}
+
+    def take(k):
+        if len(free) < k:
+            return None
+        out = free[:k]
+        del free[:k]
+        return out
+
+    def add(ms):
+        if len(fam) < MAX_SCALE_EDGES:
+            fam.add(frozenset(ms))
+
+    planted["isolated"] = len(take(max(1, n // 20)) or [])
+    for t in range(max(1, n // 30)):
+        tri = take(3)
+        if not tri:
+            break
+        add(tri)
+        for p in combinations(tri, 2):
+            add(p)
+        if t % 2:
+            for x in tri:
+                add([x])
+        planted["simplices"] += 1
+    for t in range(max(1, n // 30)):
+        tri = take(3)
+        if not tri:
+            break
+        add(tri)
+        for p in list(combinations(tri, 2))[: 1 + t % 2]:
+            add(p)
+        planted["partial"] += 1
+    for t in range(max(1, n // 60)):
+        q = take(4)
+        if not q:
+            break
+        add(q)
+        for f in rng.sample(list(combinations(q, 3)), 2) + rng.sample(list(combinations(q, 2)), 3):
+            add(f)
+        planted["four"] += 1
+    for t in range(max(1, n // 40)):
+        o = take(5)
+        if not o:
+            break
+        add([o[0], o[1], o[2]])
+        add([o[0], o[1], o[3]] + ([o[4]] if t % 2 else []))  # {o0, o1} lies in two maximal faces and is not an edge
+        add([o[0], o[2]])
+        planted["overlap"] += 1
+    rest = free[:]
+    if len(rest) >= 4:
+        for _ in range(int(len(rest) * 0.4)):
+            add(rng.sample(rest, 2))
+        for _ in range(int(len(rest) * 0.12)):
+            add(rng.sample(rest, rng.randint(3, 4)))
+        if n <= 60 and idx % 2 == 0 and len(rest) >= 7:
+            big = rng.sample(rest, rng.randint(6, 7))
+            add(big)
+            for _ in range(4):
+                add(rng.sample(big, rng.randint(2, 5)))
+    for x in rng.sample(labels, max(1, n // 10)):
+        add([x])
+    edges = [rng.sample(sorted(e, key=repr), len(e)) for e in sorted(fam, key=lambda e: sorted(map(repr, e)))]
+    rng.shuffle(edges)
+    explicit = (idx // 3) % 2 == 1
+    H = xgi.Hypergraph()
+    H.add_nodes_from(labels)
+    if explicit:
+        ids = [f"e{j}" for j in range(len(edges))] if lk == "str" else rng.sample(range(0, 5 * len(edges)), len(edges))
+        for e, j in zip(edges, ids):
+            H.add_edge(e, idx=j)
+    else:
+        for e in edges:
+            H.add_edge(e)
+    desc = f"n={n} m={len(edges)} labels={lk} ids={'explicit' if explicit else 'auto'} planted={planted}"
+    return H, desc, planted
+
+
+def run_scale(mon, idx, rng):
+    H, desc, planted = build_scaled(rng, idx)
+    how = (f"# {desc}\n# rebuild: from xgimon.checks import c15; from xgimon.cli import case_rng; "
+           f"H = c15.build_scaled(case_rng('C15', {mon.seed}, 'scale', {idx}), {idx})[0]   (or: VERIF_SEED={mon.seed} ./check C15 --case scale:{idx})")
+    if snap.inv(H):
+        mon.note("discarded-invalid-input")
+        return
+    n = H.num_nodes
+    cls = "n>250" if n > 250 else ("61<=n<=250" if n > 60 else "11<=n<=60")
+    mon.note(f"scale:{cls}")
+    for k, v in planted.items():
+        mon.note(f"scale:{cls}:planted-{k}", v)
+    mon.note(f"scale:{cls}:edges", H.num_edges)
+    orc = monitor_hypergraph(mon, H, how, size_tag="n>250" if n > 250 else ("n>60" if n > 60 else "n>10"))
+    mon.note(f"scale:{cls}:largest-edge>=6", int(any(len(e) >= 6 for e in orc.edges)))
+    mon.nontrivial(("scale", desc, len(orc.maximal)))
+    mon.sample(how)
+
+
 def run_case(mon, kind, idx, rng):
+    if kind == "scale":
+        return run_scale(mon, idx, rng)
     if kind == "sequence":
         return run_sequence(mon, rng)
     if kind == "exhaustive":
